@@ -118,8 +118,23 @@ pub fn gen_dir(t: &mut Tape, cfg: &TreeCfg, depth: u32, skipped_undecided: &mut 
     let mut entries: Vec<Entry> = Vec::new();
     let mut used: Vec<String> = Vec::new();
     for k in 0..n {
-        let roll = t.below(10);
-        let (mut name, class, kind): (String, &'static str, Kind) = if roll < 5 {
+        let roll = t.below(11);
+        let (mut name, class, kind): (String, &'static str, Kind) = if roll == 10 {
+            // an arbitrary (valid Unicode) stem with one of the interesting suffixes; the class follows from the predicate
+            let alphabet: Vec<char> = "aZ9_-. \u{e9}\u{17f}\u{130}\u{df}\u{4e16}\u{1f600}tTsSoOlL'()[]{}#%&+,;=@~".chars().collect();
+            let len = t.range(0, 7);
+            let mut stem: String = (0..len).map(|_| *t.pick(&alphabet)).collect();
+            let suffix = *t.pick(&[".sol", ".t.sol", ".T.sol", ".SOL", ".Sol", ".sol.txt", "", ".t.Sol", ".sol ", "sol", ".s.sol", ".tt.sol"]);
+            stem.push_str(suffix);
+            if stem.is_empty() || stem == "." || stem == ".." || stem.contains('/') {
+                stem = format!("x{suffix}");
+            }
+            if eligible(&stem) {
+                (stem, "eligible", Kind::File(program_text(t).into_bytes()))
+            } else {
+                (stem, "other-file", Kind::File(inert_content(t)))
+            }
+        } else if roll < 5 {
             let name = t.pick(ELIGIBLE_NAMES).to_string();
             (name, "eligible", Kind::File(program_text(t).into_bytes()))
         } else if roll < 7 && depth < cfg.max_depth {
